@@ -10,6 +10,10 @@ EXTENDS Naturals, Sequences, FiniteSets, TLC, Json
    "family" a /verif model: ancestor_of transitive, [= related_to, inverse descendant_of; knows = known_by^-1;
             best_friend_of [= friend_of [= knows and mentor_of [= guide_of [= related_to, where no instance has a
             friend_of / guide_of field (a skipped level of the hierarchy).
+   "geo"    a /verif model: located_in transitive WITHOUT an inverse, directly_in [= located_in (declared as a descriptor
+            class deriving from LocatedIn, it inherits the TransitiveProperty mixin: as declared, it is transitive as well);
+            the instances r1 and r3 are instances of a subclass (City) of the class that declares the fields (Region) -
+            the semantics do not care.
  Layer R: Closure(asserted) = least fixpoint of the declared semantics; FieldsOf(facts).
  Layer I: AddRel - the recursion of PropertyDescriptorRelation.add_to_graph: stop at an existing edge,
           else add, then super-properties (same instance, then role taker), then the inverse, then the
@@ -28,25 +32,29 @@ vars == <<asserted, edges, steps, h>>
 
 \* ---------------- schema
 Univ == Model = "univ"
-Persons == IF Univ THEN {"p1", "p2"} ELSE {"a", "b", "c", "d"}
+Geo == Model = "geo"
+Persons == IF Univ THEN {"p1", "p2"} ELSE IF Geo THEN {"r1", "r2", "r3", "r4"} ELSE {"a", "b", "c", "d"}
 Companies == IF Univ THEN {"c1", "c2", "c3"} ELSE {}
 Roles == IF Univ THEN {"ceo"} ELSE {}
 Taker == [r \in Roles |-> "p1"]
 Inst == Persons \cup Companies \cup Roles
 FieldsOfInst(x) == IF Univ THEN (IF x \in Persons THEN {"works_for", "member_of"}
                                  ELSE IF x \in Companies THEN {"members", "sub"} ELSE {"head_of"})
+                   ELSE IF Geo THEN {"located_in", "directly_in"}
                    ELSE {"related_to", "ancestor_of", "descendant_of", "knows", "known_by", "best_friend_of", "mentor_of"}
 \* super-properties that have a field on the same instance / on the role taker: <<property, distance in the hierarchy>>
 SuperSame(p) == IF Univ THEN (IF p = "works_for" THEN << <<"member_of", 1>> >> ELSE <<>>)
+                ELSE IF Geo THEN (IF p = "directly_in" THEN << <<"located_in", 1>> >> ELSE <<>>)
                 ELSE (CASE p = "ancestor_of" -> << <<"related_to", 1>> >>
                         [] p = "best_friend_of" -> << <<"knows", 2>> >>
                         [] p = "mentor_of" -> << <<"related_to", 2>> >>
                         [] OTHER -> <<>>)
 SuperTaker(p) == IF Univ /\ p = "head_of" THEN << <<"works_for", 1>>, <<"member_of", 2>> >> ELSE <<>>
 Inv(p) == IF Univ THEN (CASE p \in {"member_of", "works_for", "head_of"} -> "members" [] p = "members" -> "member_of" [] OTHER -> "none")
+          ELSE IF Geo THEN "none"
           ELSE (CASE p = "ancestor_of" -> "descendant_of" [] p = "descendant_of" -> "ancestor_of"
                   [] p \in {"knows", "best_friend_of"} -> "known_by" [] p = "known_by" -> "knows" [] OTHER -> "none")
-Trans(p) == IF Univ THEN p = "sub" ELSE p = "ancestor_of"
+Trans(p) == IF Univ THEN p = "sub" ELSE IF Geo THEN TRUE ELSE p = "ancestor_of"
 SingleValued(p) == p \in {"works_for", "head_of"}
 \* the inverse is stored on the target, or on the target's role taker when the target itself has no such field
 InvSubject(f) == IF f[3] \in Roles /\ Inv(f[1]) \notin FieldsOfInst(f[3]) THEN Taker[f[3]] ELSE f[3]
@@ -56,6 +64,7 @@ Assertable == IF Univ
        \cup { <<"members", c, p>> : c \in Companies, p \in Persons \cup Roles }
        \cup { <<"head_of", r, c>> : r \in Roles, c \in Companies }
        \cup { t \in { <<"sub", x, y>> : x \in Companies, y \in Companies } : t[2] # t[3] }
+  ELSE IF Geo THEN { t \in { <<q, x, y>> : q \in {"located_in", "directly_in"}, x \in Persons, y \in Persons } : t[2] # t[3] }
   ELSE { t \in { <<q, x, y>> : q \in {"ancestor_of", "descendant_of", "related_to", "mentor_of"}, x \in Persons, y \in Persons } : t[2] # t[3] }
        \cup { t \in { <<q, x, y>> : q \in {"knows", "known_by", "best_friend_of"}, x \in {"a", "b"}, y \in {"a", "b", "c"} } : t[2] # t[3] }
 
